@@ -7,6 +7,7 @@ import PtnModel.Driver.Hist
 import PtnModel.Driver.Heap
 import PtnModel.Driver.Evolution
 import PtnModel.Driver.Krylov
+import PtnModel.Driver.Hamiltonian
 /-!
 Line-protocol driver: one JSON object per input line (`{"op": name, ...}`), one JSON line out.
 Compiled to `.lake/build/bin/ptndriver`; imports nothing from Mathlib.
@@ -21,7 +22,8 @@ def handlers : List Handler := [
   Ptn.Drv.HistDrv.handle,
   Ptn.Drv.HeapDrv.handle,
   Ptn.Drv.EvoDrv.handle,
-  Ptn.Drv.Krylov.handle
+  Ptn.Drv.Krylov.handle,
+  Ptn.Drv.Ham.handle
 ]
 
 def dispatch (line : String) : String :=
